@@ -55,6 +55,34 @@ Theorem C03_step_balance_telescopes :
   (forall t, t < n -> fsub (s t) (if Nat.eqb t 0 then fO else s (t - 1)) = d t) ->
   forall t, t < n -> s t = ssum F fO fadd (S t) d.
 Proof. exact (telescoping F fO fI fadd fmul fsub fopp fdiv finv Fth). Qed.
+
+(* the self-check: get_stock_balance is, entry by entry, the whole-period net inflow minus the change of the stock; it is zero at a
+   step exactly when the balance identity holds there (so a stock that is off by delta at one step shows it), ... *)
+Theorem C03_self_check_is_zero_exactly_where_the_balance_holds :
+  forall (dt stock inflow outflow : list F) t,
+  t < length stock -> length dt = length stock -> length inflow = length stock -> length outflow = length stock ->
+  (nthF (stock_balance F fO fmul fsub true dt stock inflow outflow) t = fO
+   <-> fsub (nthF stock t) (if Nat.eqb t 0 then fO else nthF stock (t - 1)) = fmul (nthF dt t) (fsub (nthF inflow t) (nthF outflow t))).
+Proof. exact (stock_balance_zero_iff F fO fI fadd fmul fsub fopp fdiv finv Fth). Qed.
+
+(* a stock that satisfies the balance at a step and is changed by delta there shows exactly -delta in the self-check *)
+Theorem C03_self_check_shows_a_perturbation :
+  forall (dt stock stock' inflow outflow : list F) t (delta : F),
+  t < length stock -> length stock' = length stock ->
+  length dt = length stock -> length inflow = length stock -> length outflow = length stock ->
+  fsub (nthF stock t) (if Nat.eqb t 0 then fO else nthF stock (t - 1)) = fmul (nthF dt t) (fsub (nthF inflow t) (nthF outflow t)) ->
+  nthF stock' t = fadd (nthF stock t) delta -> (t <> 0 -> nthF stock' (t - 1) = nthF stock (t - 1)) ->
+  nthF (stock_balance F fO fmul fsub true dt stock' inflow outflow) t = fsub fO delta.
+Proof. exact (stock_balance_shows_a_perturbation F fO fI fadd fmul fsub fopp fdiv finv Fth). Qed.
+
+(* ... and it accepts every computed inflow-driven stock: zero at every step *)
+Theorem C03_self_check_accepts_every_computed_stock :
+  forall (n : nat) (dt inflow : list F) (sf : list (list F)),
+  length dt = n -> length inflow = n -> (forall t c, t < c -> nth2 sf t c = fO) -> (forall t, t < n -> nthF dt t <> fO) ->
+  forall t, t < n ->
+  let r := idsm F fO fI fadd fmul fsub fdiv true n dt inflow sf in
+  nthF (stock_balance F fO fmul fsub true dt (o_stock F r) inflow (o_outflow F r)) t = fO.
+Proof. intros; eapply idsm_self_check_is_zero; eauto. Qed.
 End G.
 Print Assumptions C03_balance_inflow_driven.
 Print Assumptions C03_balance_stock_driven.
@@ -73,3 +101,6 @@ Print Assumptions C03_balance_inflow_driven_reals.
 
 Print Assumptions C03_stock_is_cumulated_net_inflow.
 Print Assumptions C03_step_balance_telescopes.
+Print Assumptions C03_self_check_is_zero_exactly_where_the_balance_holds.
+Print Assumptions C03_self_check_accepts_every_computed_stock.
+Print Assumptions C03_self_check_shows_a_perturbation.
